@@ -121,6 +121,10 @@ def run(rng, tier, res=None, want=("arcs", "pdf", "cluster")):
         U = n + extra
         M = gen_matrix(rng, U, kind)
         I = rng.sample(range(U), n) if extra and rng.random() < 0.7 else None
+        if n >= 3 and rng.random() < 0.12:
+            # a bootstrap resample: identifiers drawn WITH replacement (two samples may be the same pool object, at distance 0)
+            I = [rng.randrange(U) for _ in range(n)]
+            res.hit("repeated_identifiers")
         idx = I if I is not None else list(range(n))
         K = rng.choice([1, 2, 3])
         lab = [rng.randrange(K) for _ in range(n)]
@@ -265,7 +269,7 @@ def run(rng, tier, res=None, want=("arcs", "pdf", "cluster")):
             # optional hand-set plateau densities (few distinct values)
             hs = rng.random()
             if hs < 0.3:
-                vals = rng.sample([3.0, 5.0, 8.0, 13.0], rng.choice([1, 2, 3]))
+                vals = rng.sample([3.0, 4.0, 5.0, 6.0, 8.0, 13.0], rng.choice([1, 2, 3, 4]))     # unit gaps: cost of a root = density - 1 of another
                 for i in range(n):
                     sg.nodes[i].density = rng.choice(vals)
                     sg.nodes[i].cost = sg.nodes[i].density - 1
